@@ -112,6 +112,41 @@ func exportPoint(rig *Rig, sc *Scenario, s *State, fresh *State) c19Result {
 		add("export-does-not-panic", panicClass(p, trc), "ExportGenesis panics: "+p)
 		return res
 	}
+	// the exported genesis must be the stored state: definitions, bindings, withdrawal addresses, contexts
+	if len(gs.Definitions) != len(pv.Defs) {
+		add("exported-genesis-equals-stored-state", "definitions", fmt.Sprintf("%d definitions exported, %d stored", len(gs.Definitions), len(pv.Defs)))
+	}
+	for _, d := range gs.Definitions {
+		if sd, ok := pv.Defs[d.Name]; !ok || sd.String() != d.String() {
+			add("exported-genesis-equals-stored-state", "definitions", fmt.Sprintf("exported definition %s differs from the stored one: %s vs %s", d.Name, clip(d.String()), clip(sd.String())))
+		}
+	}
+	if len(gs.Bindings) != len(pv.Bindings) {
+		add("exported-genesis-equals-stored-state", "bindings", fmt.Sprintf("%d bindings exported, %d stored", len(gs.Bindings), len(pv.Bindings)))
+	}
+	for _, b := range gs.Bindings {
+		if sb := pv.Binding(b.ServiceName, b.Provider); sb == nil || sb.String() != b.String() {
+			add("exported-genesis-equals-stored-state", "bindings", fmt.Sprintf("exported binding (%s,%s) differs from the stored one", b.ServiceName, nameOf(b.Provider)))
+		}
+	}
+	if len(gs.WithdrawAddresses) != len(pv.Withdraw) {
+		add("exported-genesis-equals-stored-state", "withdraw-addresses", fmt.Sprintf("%d withdrawal addresses exported, %d stored", len(gs.WithdrawAddresses), len(pv.Withdraw)))
+	}
+	for _, o := range universe() {
+		if raw, ok := rawLookup(pv.Withdraw, st.GetWithdrawAddrKey(o)); ok {
+			if w, ok2 := gs.WithdrawAddresses[addrBech(o)]; !ok2 || !bytes.Equal(w, raw) {
+				add("exported-genesis-equals-stored-state", "withdraw-addresses", "withdrawal address of "+nameOf(o)+" not exported as stored")
+			}
+		}
+	}
+	if len(gs.RequestContexts) != len(pv.Ctxs) {
+		add("exported-genesis-equals-stored-state", "contexts", fmt.Sprintf("%d contexts exported, %d stored", len(gs.RequestContexts), len(pv.Ctxs)))
+	}
+	for id, c := range gs.RequestContexts {
+		if sc2 := pv.Ctxs[id]; sc2 == nil || sc2.String() != c.String() {
+			add("exported-genesis-equals-stored-state", "contexts", "exported context "+sc.ctxName(id)+" differs from the stored one")
+		}
+	}
 	if err := st.ValidateGenesis(*gs); err != nil {
 		add("exported-genesis-passes-validation", firstWords(reNums.ReplaceAllString(err.Error(), "N"), 4), "ValidateGenesis rejects the exported genesis: "+err.Error())
 		return res
